@@ -69,7 +69,8 @@ theorem PW.created {r : Req} (h : PW r.cnt r.frame) :
 request, 0 otherwise) is now in flight and goes to the new task -/
 theorem roomGranted_tail {cap : Cap} {L R : Bool} (p : Pool) (m : Nat) (isMap : Bool) (hph : PhaseOK p) (hreg : RegOK p)
     (hgrp : GroupsOK p) (hlife : LifeOK p) (hpre : SlotPre cap p) (hst : Strict L R p)
-    (hmap : MapMid p m (if isMap then 1 else 0)) (hlt : m < p.reqs.length) (hfl : FlushOK p) (hacc : AccAt p m PW) :
+    (hmap : MapMid p m (if isMap then 1 else 0)) (hlt : m < p.reqs.length) (hfl : FlushOK p) (hacc : AccAt p m PW)
+    (hnw : ∀ r, p.reqs[m]? = some r → r.frame ≠ .waitRoom) :
     Good cap L R (((if (!p.sem.value.isZero) = true then (({ p with sem := p.sem.wakeNext.1 } : Pool).schedOpt p.sem.wakeNext.2) else p).createTask m
       isMap).continueSpawner m) := by
   split
@@ -90,7 +91,14 @@ theorem roomGranted_tail {cap : Cap} {L R : Bool} (p : Pool) (m : Nat) (isMap : 
       (mapOK_createTask isMap ((wakeNext_mapFrame p).mid hmap hlt) hlt').mid m,
       accAt_createTask isMap ((wakeNext_mapFrame p).accFrame.atReq hacc hlt (fun c fr fr' x _ => PW.ff c fr fr' x)) hlt'
         (fun r _ hp => PW.created hp),
-      by rw [reqsLen_createTask]; exact hlt'⟩
+      by rw [reqsLen_createTask]; exact hlt', fun r' hr' => by
+        obtain ⟨r0, a, b⟩ := frame_createTask _ m isMap m r' hr'
+        rw [b]
+        rcases (wakeNext_mapFrame p).rq m r0 a with ⟨r1, a1, b1⟩ | ⟨hge, _⟩
+        · rcases b1.fr with e | e
+          · rw [e]; exact hnw r1 a1
+          · rw [e]; intro x; cases x
+        · omega⟩
     · intro i tk h hn; rw [h3] at h; exact hph i tk h hn
     · cases cap with
       | fin n =>
@@ -105,7 +113,9 @@ theorem roomGranted_tail {cap : Cap} {L R : Bool} (p : Pool) (m : Nat) (isMap : 
   · rename_i hz
     refine good_continueSpawner _ m ⟨good0_createTask_afterTake p m _ hph hreg hgrp hlife hpre hst hfl ?_,
       (mapOK_createTask isMap hmap hlt).mid m, accAt_createTask isMap hacc hlt (fun r _ hp => PW.created hp),
-      by rw [reqsLen_createTask]; exact hlt⟩
+      by rw [reqsLen_createTask]; exact hlt, fun r' hr' => by
+        obtain ⟨r0, a, b⟩ := frame_createTask _ m isMap m r' hr'
+        rw [b]; exact hnw r0 a⟩
     -- no free slot: nothing to show
     intro _ v hv hpos
     rw [hv] at hz
@@ -122,7 +132,7 @@ theorem roomGranted_good {cap : Cap} {L R : Bool} (p : Pool) (m : Nat) (r : Req)
   simp only
   refine roomGranted_tail (p.modReq m fun x => { x with frame := MFrame.running }) m (r.kind == .map) hph
     (hreg.of_eq rfl rfl rfl rfl rfl) (hgrp.of_eq rfl rfl) (hlife.of_eq rfl rfl) hpre (hst.of_eq rfl rfl) ?_ (by simpa [modReq] using hlt)
-    (hfl.frame rfl rfl (fun _ h => h)) ?_
+    (hfl.frame rfl rfl (fun _ h => h)) ?_ ?_
   rotate_left
   · -- the books of a spawner that was suspended in `_start_task`
     refine (hacc.atReq m).modReq _ (fun _ => rfl) ?_
@@ -135,20 +145,30 @@ theorem roomGranted_good {cap : Cap} {L R : Bool} (p : Pool) (m : Nat) (r : Req)
       exact ⟨by show x.created + x.skipped + x.remaining = x.n0; omega, b⟩
     · obtain ⟨a, b, c, d, _⟩ := hp.2 hk
       exact ⟨hk, a, d (Or.inl hfx), rfl⟩
+  · intro r' hr'
+    simp only [modReq] at hr'
+    obtain ⟨x, hx, rfl⟩ := getElem?_modify_some p.reqs m m _ r' hr'
+    simp
   -- the ghost frame: the map slot a map spawner carried is now in flight
   refine (hmap.mid m).modReq _ _ ?_ (fun _ => rfl) (fun _ _ _ _ hf => by cases hf)
   intro x v hx hv
-  refine ⟨v, hv, ?_⟩
   have hp : Req.pend { x with frame := MFrame.running } = 0 := by simp [Req.pend]
   have hw : ({ x with frame := MFrame.running } : Req).mapSem.waiters = x.mapSem.waiters := rfl
-  rw [hp, hw]
   obtain ⟨hf, hk⟩ := hfr x hx
-  by_cases hkm : r.kind = .map
-  · have hacq := hmap.acq m x hx (hk.trans hkm) hf
-    have hpx : x.pend = 1 := by simp [Req.pend, hk.trans hkm, hacq, hf]
-    rw [hpx]; simp [hkm]
-  · have : (r.kind == ReqKind.map) = false := by simpa using hkm
-    simp [this]; omega
+  have key : ((v + grantsL x.mapSem.waiters + 0 : Nat) : Int) + (if (r.kind == ReqKind.map) = true then 1 else 0)
+      = ((v + grantsL x.mapSem.waiters + x.pend : Nat) : Int) + 0 := by
+    by_cases hkm : r.kind = .map
+    · have hacq := hmap.acq m x hx (hk.trans hkm) hf
+      have hpx : x.pend = 1 := by simp [Req.pend, hk.trans hkm, hacq, hf]
+      rw [hpx]; simp [hkm]
+    · have : (r.kind == ReqKind.map) = false := by simpa using hkm
+      have hpx : x.pend = 0 := by
+        have : (x.kind == ReqKind.map) = false := by rw [hk]; exact this
+        simp [Req.pend, this]
+      rw [hpx]; simp [this]
+  refine ⟨v, hv, ?_, fun ho => ⟨ho, ?_⟩⟩
+  · rw [hp, hw]; omega
+  · rw [hp, hw]; omega
 
 /-- slot conservation while a removed waiter entry may still carry a granted slot -/
 def SlotGrant (cap : Cap) (p : Pool) (st : Option WaitSt) : Prop :=
@@ -188,18 +208,18 @@ theorem mapOK_finishMeta_carried {p : Pool} {m : Nat} (o : Outcome) (h : MapMid 
   unfold finishMeta
   split
   · rename_i hn
-    refine ⟨h.ref, ?_, h.acq⟩
+    refine ⟨h.ref, ?_, h.wk, h.acq⟩
     intro m' r hr
-    obtain ⟨v, hv, hs⟩ := h.le m' r hr
+    obtain ⟨v, hv, hs, hs2⟩ := h.le m' r hr
     have : m' ≠ m := by intro e; subst e; rw [hn] at hr; cases hr
-    simp only [this, if_false] at hs
-    exact ⟨v, hv, by omega⟩
+    simp only [this, if_false] at hs hs2
+    exact ⟨v, hv, by omega, fun ho => by have := hs2 ho; omega⟩
   · rename_i r hr
     refine Tame.map (tame_emitChildren _ _) ?_
     refine MapMid.ok (m := m) (k := 0) ?_
     refine h.modReq _ 0 ?_ (fun _ => rfl) (fun _ _ _ _ hf => by cases hf)
     intro x v hx hv
-    refine ⟨v, hv, ?_⟩
+    refine ⟨v, hv, ?_, fun ho => by cases ho⟩
     have hp : Req.pend { x with frame := MFrame.done, outcome := some (if (o == Outcome.ok && r.mustCancel) = true then Outcome.cancelled else o), sched := false, mustCancel := false } = 0 := by
       simp [Req.pend]
     have hw : ({ x with frame := MFrame.done, outcome := some (if (o == Outcome.ok && r.mustCancel) = true then Outcome.cancelled else o), sched := false, mustCancel := false } : Req).mapSem.waiters = x.mapSem.waiters := rfl
@@ -338,7 +358,7 @@ theorem good_mapSemGranted {cap : Cap} {L R : Bool} (p : Pool) (m : Nat) (r : Re
   unfold mapSemGranted
   simp only
   have h1 : SpSt cap L R (p.modReq m fun x => { x with acquired := true, frame := MFrame.running }) m 1 (PM r.items.length 1) := by
-    refine h.modReq' _ _ (fun x => ⟨rfl, rfl, by simp [Req.pend]⟩) (fun _ _ _ _ hf => by cases hf) (fun _ => rfl)
+    refine h.modReq' _ _ (fun x => ⟨rfl, rfl, Or.inr rfl, fun h => h⟩) (fun _ _ _ _ hf => by cases hf) (fun _ => rfl)
       (fun x _ hp => hp)
   have hacq : ReqAt (p.modReq m fun x => { x with acquired := true, frame := MFrame.running }) m (fun r => r.acquired = true) :=
     reqAt_modReq_new _ m _ _ (fun _ => rfl)
@@ -348,45 +368,126 @@ theorem good_mapSemGranted {cap : Cap} {L R : Bool} (p : Pool) (m : Nat) (r : Re
   · rename_i hb
     exact good_mapStartTask _ m _ h1 hacq (by simpa using hb)
 
+/-- `_wake_up_next` keeps `value + grants` when the counter is positive -/
+theorem _root_.Taskpool.Sem.wakeNext_effect (s : Sem) (v : Nat) (hv : s.value = .fin v) (hpos : 0 < v) :
+    ∃ v', s.wakeNext.1.value = .fin v' ∧ v' + grantsL s.wakeNext.1.waiters = v + grantsL s.waiters := by
+  unfold Sem.wakeNext
+  simp only [hv]
+  generalize hr : wakeNextL (Cap.fin v) s.waiters = r
+  obtain ⟨c, ws', o⟩ := r
+  obtain ⟨v', h1, h2⟩ := wakeNextL_sum v s.waiters hpos c ws' o hr
+  exact ⟨v', by simp [h1], by simp [h2]⟩
+
+/-- the tail of `acquire()` of the call's own semaphore after the wake-up (`g`: the entry had been granted, `c`: the
+spawner was cancelled): the books change by the slot that is now in flight, and no wake-up is lost -/
+theorem mapWake_facts (s : Sem) (m : Nat) (c : Bool) (v : Nat) (hv : s.value = .fin v) (hw : s.WakeInv) :
+    ∃ v', (if ((removeWaiterL m s.waiters).1 == some .granted) = true then
+            (if c = true then ({ s with waiters := (removeWaiterL m s.waiters).2 } : Sem).release
+             else if (!({ s with waiters := (removeWaiterL m s.waiters).2 } : Sem).value.isZero) = true then
+               ({ s with waiters := (removeWaiterL m s.waiters).2 } : Sem).wakeNext
+             else (({ s with waiters := (removeWaiterL m s.waiters).2 } : Sem), none))
+          else (({ s with waiters := (removeWaiterL m s.waiters).2 } : Sem), none)).1.value = .fin v' ∧
+      ((v' + grantsL (if ((removeWaiterL m s.waiters).1 == some .granted) = true then
+            (if c = true then ({ s with waiters := (removeWaiterL m s.waiters).2 } : Sem).release
+             else if (!({ s with waiters := (removeWaiterL m s.waiters).2 } : Sem).value.isZero) = true then
+               ({ s with waiters := (removeWaiterL m s.waiters).2 } : Sem).wakeNext
+             else (({ s with waiters := (removeWaiterL m s.waiters).2 } : Sem), none))
+          else (({ s with waiters := (removeWaiterL m s.waiters).2 } : Sem), none)).1.waiters : Nat) : Int) +
+        (if ((removeWaiterL m s.waiters).1 == some .granted && !c) = true then 1 else 0) = (v + grantsL s.waiters : Nat) ∧
+      (if ((removeWaiterL m s.waiters).1 == some .granted) = true then
+            (if c = true then ({ s with waiters := (removeWaiterL m s.waiters).2 } : Sem).release
+             else if (!({ s with waiters := (removeWaiterL m s.waiters).2 } : Sem).value.isZero) = true then
+               ({ s with waiters := (removeWaiterL m s.waiters).2 } : Sem).wakeNext
+             else (({ s with waiters := (removeWaiterL m s.waiters).2 } : Sem), none))
+          else (({ s with waiters := (removeWaiterL m s.waiters).2 } : Sem), none)).1.WakeInv := by
+  have hrm := removeWaiterL_grants m s.waiters
+  have hv1 : ({ s with waiters := (removeWaiterL m s.waiters).2 } : Sem).value = .fin v := hv
+  by_cases hg : (removeWaiterL m s.waiters).1 = some .granted
+  · have hgb : ((removeWaiterL m s.waiters).1 == some .granted) = true := by simp [hg]
+    simp only [hgb, if_true, Bool.true_and]
+    simp only [hg, if_true] at hrm
+    cases c with
+    | true =>
+      obtain ⟨v', a, b⟩ := Sem.release_effect _ v hv1
+      simp only [if_true]
+      refine ⟨v', a, ?_, fun _ _ _ hgr => Sem.release_wake _ hgr⟩
+      simp only [Bool.not_true, Bool.false_eq_true, if_false]
+      have b' : v' + grantsL ({ s with waiters := (removeWaiterL m s.waiters).2 } : Sem).release.1.waiters
+          = v + 1 + grantsL (removeWaiterL m s.waiters).2 := b
+      omega
+    | false =>
+      simp only [Bool.false_eq_true, if_false, Bool.not_false, if_true]
+      by_cases hz : v = 0
+      · subst hz
+        have : ({ s with waiters := (removeWaiterL m s.waiters).2 } : Sem).value.isZero = true := by rw [hv1]; rfl
+        simp only [this, Bool.not_true, Bool.false_eq_true, if_false]
+        refine ⟨0, hv1, ?_, fun v' hv' hp => ?_⟩
+        · show ((0 + grantsL (removeWaiterL m s.waiters).2 : Nat) : Int) + 1 = _
+          omega
+        · rw [hv1] at hv'; cases hv'; omega
+      · have hz' : ({ s with waiters := (removeWaiterL m s.waiters).2 } : Sem).value.isZero = false := by
+          rw [hv1]; cases v with | zero => omega | succ n => rfl
+        simp only [hz', Bool.not_false, if_true]
+        obtain ⟨v', a, b⟩ := Sem.wakeNext_effect _ v hv1 (by omega)
+        refine ⟨v', a, ?_, fun _ _ _ hgr => Sem.wakeNext_wake _ hgr⟩
+        have b' : v' + grantsL ({ s with waiters := (removeWaiterL m s.waiters).2 } : Sem).wakeNext.1.waiters
+            = v + grantsL (removeWaiterL m s.waiters).2 := b
+        omega
+  · have hgb : ((removeWaiterL m s.waiters).1 == some .granted) = false := by simpa using hg
+    simp only [hgb, Bool.false_eq_true, if_false, Bool.false_and]
+    simp only [hg, if_false] at hrm
+    refine ⟨v, hv1, ?_, Sem.wakeInv_remove s m hw hg⟩
+    show ((v + grantsL (removeWaiterL m s.waiters).2 : Nat) : Int) + 0 = _
+    omega
+
 theorem good_wakeWaitMapSem {cap : Cap} {L R : Bool} (p : Pool) (m : Nat) (r : Req) (hg : Good cap L R p)
     (hlt : m < p.reqs.length)
-    (hat : ReqAt p m (fun x => x.mapSem.waiters = r.mapSem.waiters ∧ x.frame = .waitMapSem ∧ x.items.length = r.items.length ∧ x.kind = r.kind)) :
+    (hat : ReqAt p m (fun x => x.mapSem = r.mapSem ∧ x.frame = .waitMapSem ∧ x.items.length = r.items.length ∧ x.kind = r.kind)) :
     Good cap L R (p.wakeWaitMapSem m r) := by
   unfold wakeWaitMapSem
   simp only
-  have hrm := removeWaiterL_grants m r.mapSem.waiters
-  have h0 : SpSt cap L R (p.modReq m fun x => { x with mapSem := { x.mapSem with waiters := (removeWaiterL m r.mapSem.waiters).2 }, mustCancel := false }) m
-      (if (removeWaiterL m r.mapSem.waiters).1 = some .granted then 1 else 0) (fun c fr => AccReq c fr 0 ∧ fr = .waitMapSem ∧ c.left = r.items.length) := by
-    refine (hg.sp m hlt).modReq _ _ _ ?_ (fun _ => rfl) (fun _ _ ha => ha) (fun _ => rfl) ?_
+  generalize hc : ((removeWaiterL m r.mapSem.waiters).1 == some WaitSt.cancelled || r.mustCancel) = c
+  obtain ⟨x0, hx0⟩ : ∃ x, p.reqs[m]? = some x := ⟨p.reqs[m], List.getElem?_eq_getElem hlt⟩
+  obtain ⟨v0, hv0, _⟩ := hg.map.le m x0 hx0
+  have hv0' : r.mapSem.value = .fin v0 := by rw [← (hat x0 hx0).1]; exact hv0
+  have hw0 : r.mapSem.WakeInv := by rw [← (hat x0 hx0).1]; exact hg.map.wk m x0 hx0
+  obtain ⟨v', f1, f2, f3⟩ := mapWake_facts r.mapSem m c v0 hv0' hw0
+  generalize hs2 : (if ((removeWaiterL m r.mapSem.waiters).1 == some WaitSt.granted) = true then
+            (if c = true then ({ r.mapSem with waiters := (removeWaiterL m r.mapSem.waiters).2 } : Sem).release
+             else if (!({ r.mapSem with waiters := (removeWaiterL m r.mapSem.waiters).2 } : Sem).value.isZero) = true then
+               ({ r.mapSem with waiters := (removeWaiterL m r.mapSem.waiters).2 } : Sem).wakeNext
+             else (({ r.mapSem with waiters := (removeWaiterL m r.mapSem.waiters).2 } : Sem), none))
+          else (({ r.mapSem with waiters := (removeWaiterL m r.mapSem.waiters).2 } : Sem), none)) = s2 at f1 f2 f3 ⊢
+  have h0 : SpSt cap L R ((p.modReq m fun x => { x with mapSem := s2.1, mustCancel := false }).schedOpt s2.2) m
+      (if ((removeWaiterL m r.mapSem.waiters).1 == some .granted && !c) = true then 1 else 0)
+      (fun c fr => AccReq c fr 0 ∧ fr = .waitMapSem ∧ c.left = r.items.length) := by
+    refine SpSt.schedOpt ?_ _
+    refine (hg.sp m hlt (fun x hx => by rw [(hat x hx).2.1]; intro e; cases e)).modReq _ _ _ ?_ (fun _ => rfl)
+      (fun _ _ ha => ha) (fun _ => rfl) ?_ (fun _ h => h) (fun _ _ _ => f3)
     · intro x v hx hv
-      refine ⟨v, hv, ?_⟩
-      have hp : Req.pend { x with mapSem := { x.mapSem with waiters := (removeWaiterL m r.mapSem.waiters).2 }, mustCancel := false } = x.pend := rfl
-      have hw : ({ x with mapSem := { x.mapSem with waiters := (removeWaiterL m r.mapSem.waiters).2 }, mustCancel := false } : Req).mapSem.waiters = (removeWaiterL m r.mapSem.waiters).2 := rfl
-      rw [hp, hw, (hat x hx).1]
-      split <;> rename_i hgr <;> simp [hgr] at hrm <;> omega
+      have hp : Req.pend { x with mapSem := s2.1, mustCancel := false } = x.pend := rfl
+      have hw : ({ x with mapSem := s2.1, mustCancel := false } : Req).mapSem.waiters = s2.1.waiters := rfl
+      have hxm := (hat x hx).1
+      rw [hxm] at hv
+      rw [hv0'] at hv; cases hv
+      refine ⟨v', f1, ?_, fun ho => ⟨ho, ?_⟩⟩
+      all_goals
+      rw [hp, hw, hxm]
+      omega
     · intro x hx hp
       have := hat x hx
       exact ⟨hp, this.2.1, this.2.2.1⟩
-  split
-  · -- cancelled while waiting for its own semaphore: a granted slot goes back, the spawner ends
+  cases c with
+  | true =>
+    -- cancelled while waiting for its own semaphore: a granted slot went back inside `acquire()`, the spawner ends
+    simp only [Bool.not_true, Bool.and_false, Bool.false_eq_true, if_false] at h0
+    simp only [if_true]
+    exact good_finishMetaSp _ m _ h0 (Int.le_refl 0) (fun c fr x => x.1.frame (Or.inr (Or.inl rfl)))
+  | false =>
+    simp only [Bool.false_eq_true, if_false]
     split
     · rename_i hgr
-      have hst : (removeWaiterL m r.mapSem.waiters).1 = some .granted := by simpa using hgr
-      rw [if_pos hst] at h0
-      refine good_finishMetaSp _ m _ (P := fun c fr => AccReq c fr 0 ∧ fr = .waitMapSem ∧ c.left = r.items.length) (k := 0) ?_ (Int.le_refl 0)
-        (fun c fr x => x.1.frame (Or.inr (Or.inl rfl)))
-      exact ⟨(tame0_releaseMap _ m).good0 h0.g0, mapMid_releaseMap (k := 0) h0.mp h0.lt,
-        (accFrame_releaseMap' _ m).2 h0.ac, by
-          have := (accFrame_releaseMap (p.modReq m fun x => { x with mapSem := { x.mapSem with waiters := (removeWaiterL m r.mapSem.waiters).2 }, mustCancel := false }) m).rql
-          exact Nat.lt_of_lt_of_le h0.lt this⟩
-    · rename_i hgr
-      have hst : ¬ (removeWaiterL m r.mapSem.waiters).1 = some .granted := by simpa using hgr
-      rw [if_neg hst] at h0
-      exact good_finishMetaSp _ m _ h0 (Int.le_refl 0) (fun c fr x => x.1.frame (Or.inr (Or.inl rfl)))
-  · split
-    · rename_i hgr
-      have hst : (removeWaiterL m r.mapSem.waiters).1 = some .granted := by simpa using hgr
-      rw [if_pos hst] at h0
+      simp only [hgr, Bool.not_false, Bool.and_true, if_true] at h0
       refine good_mapSemGranted _ m r (h0.weaken ?_)
       intro c fr hp
       -- suspended on its own semaphore: a map request with one element in hand
@@ -399,9 +500,9 @@ theorem good_wakeWaitMapSem {cap : Cap} {L R : Bool} (p : Pool) (m : Nat) (r : R
       obtain ⟨a, b, c', d, _⟩ := ha.2 hkm
       exact ⟨hkm, a, d (Or.inr rfl), hl⟩
     · rename_i hgr
-      have hst : ¬ (removeWaiterL m r.mapSem.waiters).1 = some .granted := by simpa using hgr
-      rw [if_neg hst] at h0
-      exact h0.good (Int.le_refl 0) (fun c fr x => x.1)
+      have : ((removeWaiterL m r.mapSem.waiters).1 == some WaitSt.granted) = false := by simpa using hgr
+      simp only [this, Bool.false_and, Bool.false_eq_true, if_false] at h0
+      exact h0.good rfl (fun c fr x => x.1)
 
 theorem good_stepMeta {cap : Cap} {L R : Bool} (p : Pool) (m : Nat) (hg : Good cap L R p) : Good cap L R (p.stepMeta m) := by
   unfold stepMeta
@@ -429,7 +530,8 @@ theorem good_stepMeta {cap : Cap} {L R : Bool} (p : Pool) (m : Nat) (hg : Good c
         · exact (tame_finishMeta _ m _).good hg0
         · split
           · rename_i hk
-            refine good_applyLoop m _ _ ⟨hg0.toGood0, hg0.map.mid m, ⟨hg0.acc.ref, hg0.acc.tk, fun m' r' a _ => hg0.acc.rq m' r' a, ?_⟩, hlt0⟩
+            refine good_applyLoop m _ _ ⟨hg0.toGood0, hg0.map.mid m, ⟨hg0.acc.ref, hg0.acc.tk, fun m' r' a _ => hg0.acc.rq m' r' a, ?_⟩, hlt0,
+              fun x hx => by have e := hat (fun y => y.frame = r.frame) rfl x hx; rw [e, hf]; intro c; cases c⟩
             · intro x hx
               have e := hat (fun y => y.kind = r.kind ∧ y.remaining = r.remaining) ⟨rfl, rfl⟩ x hx
               have ha := hg0.acc.rq m x hx
@@ -438,7 +540,8 @@ theorem good_stepMeta {cap : Cap} {L R : Bool} (p : Pool) (m : Nat) (hg : Good c
               have this' : ((x.created + x.skipped + x.remaining : Nat) : Int) = x.n0 + 0 := this
               exact ⟨hka, by show x.created + x.skipped + r.remaining = x.n0; rw [← e.2]; omega⟩
           · rename_i hk
-            refine good_mapLoop m _ _ ⟨hg0.toGood0, hg0.map.mid m, ⟨hg0.acc.ref, hg0.acc.tk, fun m' r' a _ => hg0.acc.rq m' r' a, ?_⟩, hlt0⟩
+            refine good_mapLoop m _ _ ⟨hg0.toGood0, hg0.map.mid m, ⟨hg0.acc.ref, hg0.acc.tk, fun m' r' a _ => hg0.acc.rq m' r' a, ?_⟩, hlt0,
+              fun x hx => by have e := hat (fun y => y.frame = r.frame) rfl x hx; rw [e, hf]; intro c; cases c⟩
             intro x hx
             have e := hat (fun y => y.kind = r.kind ∧ y.items = r.items ∧ y.frame = r.frame) ⟨rfl, rfl, rfl⟩ x hx
             have ha := hg0.acc.rq m x hx
@@ -691,7 +794,7 @@ theorem good_flushAfter1 {cap : Cap} {L R : Bool} (p : Pool) (a re o) (hg : Good
   · exact (tame_finishApi p a _).good hg
   · simp only
     have h1 : Tame p ({ p with metaCancelled := [], reqs := p.reqs.map fun (r : Req) => { r with inCancelled := false } } : Pool) :=
-      tame_of_map _ _ _ rfl rfl rfl (fun x => ⟨rfl, rfl, rfl, Nat.le_refl _, fun h => h, rfl, Or.inl rfl⟩)
+      tame_of_map _ _ _ rfl rfl rfl (fun x => ⟨rfl, rfl, rfl, Nat.le_refl _, fun h => h, rfl, Or.inl rfl, fun h => h, fun h => h, fun _ => Nat.le_refl _⟩)
     have h2 := tame_modApi ({ p with metaCancelled := [], reqs := p.reqs.map fun (r : Req) => { r with inCancelled := false } } : Pool) a
       (fun x => { x with snapE := p.ended, snapC := p.cancelledR }) (fun _ => rfl)
       (fun x hx g h => absurd h ((hfr x hx).1 g))
@@ -708,7 +811,7 @@ theorem good_flushStage1 {cap : Cap} {L R : Bool} (p : Pool) (a re) (hg : Good c
   unfold flushStage1
   simp only
   have h1 : Tame p ({ p with reqs := p.reqs.map fun (r : Req) => if r.inRunning && r.outcome.isSome then { r with inRunning := false } else r } : Pool) :=
-    tame_of_map _ _ _ rfl rfl rfl (fun x => by split <;> exact ⟨rfl, rfl, rfl, Nat.le_refl _, fun h => h, rfl, Or.inl rfl⟩)
+    tame_of_map _ _ _ rfl rfl rfl (fun x => by split <;> exact ⟨rfl, rfl, rfl, Nat.le_refl _, fun h => h, rfl, Or.inl rfl, fun h => h, fun h => h, fun _ => Nat.le_refl _⟩)
   split
   · refine good_flushAfter1 _ a re _ ((Tame.trans h1 (tame_gatherStart _ _ _ _ _)).good hg) ?_
     intro x hx
@@ -752,7 +855,7 @@ theorem good_gacAfter1 {cap : Cap} (p : Pool) (a re g) (hg : Good cap true R p)
   split
   · exact (tame_finishApi p a _).good hg
   · have h1 : Tame p ({ p with metaCancelled := [], reqs := p.reqs.map fun (r : Req) => { r with inCancelled := false, inRunning := false } } : Pool) :=
-      tame_of_map _ _ _ rfl rfl rfl (fun x => ⟨rfl, rfl, rfl, Nat.le_refl _, fun h => h, rfl, Or.inl rfl⟩)
+      tame_of_map _ _ _ rfl rfl rfl (fun x => ⟨rfl, rfl, rfl, Nat.le_refl _, fun h => h, rfl, Or.inl rfl, fun h => h, fun h => h, fun _ => Nat.le_refl _⟩)
     split
     · exact good_gacAfter2 _ a _ ((Tame.trans h1 (tame_gatherStart _ _ _ _ _)).good hg)
     · refine (Tame.trans (Tame.trans h1 (tame_gatherStart _ _ _ _ _)) (tame_gacGather2 _ a _ ?_)).good hg
